@@ -24,13 +24,20 @@ def find(fn) -> list:
     if isinstance(fn, ast.Lambda):
         return []
     ps = _params(fn)
-    # names bound once to int(param) / param itself
-    alias = set(ps)
-    for n in ast.walk(fn):
-        if isinstance(n, ast.Assign) and len(n.targets) == 1 and isinstance(n.targets[0], ast.Name):
-            v = n.value
-            if isinstance(v, ast.Call) and isinstance(v.func, ast.Name) and v.func.id == "int" and v.args and isinstance(v.args[0], ast.Name) and v.args[0].id in ps:
-                alias.add(n.targets[0].id)
+    # names computed from the parameters (int(n), max(kwargs.get("root", 0), 0), ...): closure over plain assignments
+    a_ = fn.args
+    alias = set(ps) | ({a_.kwarg.arg} if a_.kwarg else set()) | ({a_.vararg.arg} if a_.vararg else set())
+    changed = True
+    while changed:
+        changed = False
+        for n in ast.walk(fn):
+            if isinstance(n, ast.Assign) and len(n.targets) == 1 and isinstance(n.targets[0], ast.Name) and n.targets[0].id not in alias:
+                v = n.value
+                if isinstance(v, (ast.Call, ast.Name, ast.BinOp, ast.IfExp, ast.Subscript)) and any(isinstance(x, ast.Name) and x.id in alias for x in ast.walk(v)) \
+                        and not any(isinstance(x, ast.Call) and (isinstance(x.func, ast.Attribute) and x.func.attr in ("id", "pid", "shape", "number_of_nodes") or
+                                                                 isinstance(x.func, ast.Name) and x.func.id == "len") for x in ast.walk(v)):
+                    alias.add(n.targets[0].id)
+                    changed = True
     # names unpacked from a topology parameter: ids, pids = topology
     cols = set()
     for n in ast.walk(fn):
